@@ -151,6 +151,32 @@ func c11Shapes(thorough bool) map[string][]sstEntry {
 	big := func(i int) []byte { return bytes.Repeat([]byte{byte('A' + i%26)}, 20*1024) }
 	shapes["blocks2"] = mk(5, nil, big)
 	shapes["blocks3"] = mk(8, func(i int) bool { return i == 3 }, big)
+	// dense blocks: blocks are cut by bytes, not by entry count, so small entries give blocks far beyond the 1024
+	// entries the format's constants suggest (65 restart points = 1040 entries); one block and several
+	dkey := func(i int) []byte { return []byte(fmt.Sprintf("%05d", i)) }
+	dn := []int{1024, 1025, 1040, 1041, 3500}
+	if thorough {
+		dn = append(dn, 1023, 1039, 1056, 1057, 2978, 2979, 7000)
+	}
+	for _, n := range dn {
+		var es []sstEntry
+		for i := 0; i < n; i++ {
+			e := sstEntry{Key: dkey(i), Seq: uint64(i%3 + 1)}
+			if i%5 == 4 {
+				e.Tomb = true
+			} else if i%5 != 0 {
+				e.Val = []byte{byte('a' + i%26)}
+			} else {
+				e.Val = []byte{}
+			}
+			es = append(es, e)
+		}
+		shapes[fmt.Sprintf("dense%d", n)] = es
+	}
+	if thorough {
+		// an index block beyond the same count: 1100 one-entry blocks (64 KiB values)
+		shapes["blocks1100"] = mk(1100, func(i int) bool { return i%97 == 5 }, func(i int) []byte { return bytes.Repeat([]byte{byte('A' + i%26)}, 64*1024) })
+	}
 	if thorough {
 		shapes["blocks5-mixed"] = mk(40, func(i int) bool { return i%7 == 3 }, func(i int) []byte {
 			if i%3 == 0 {
@@ -201,6 +227,7 @@ func c11CheckClean(name string, ents []sstEntry, dir string, res *fw.Result, uni
 		res.Nontrivial++
 	}
 	fw.Progress("sst-clean shape=" + name)
+	light := strings.HasPrefix(name, "blocks1") // very large table: seeks are followed by 2 steps, not by the whole rest
 	got, err := readSSTForward(r, len(ents)*3+10)
 	if err != nil {
 		viol("iterate-error", err.Error())
@@ -240,6 +267,7 @@ func c11CheckClean(name string, ents []sstEntry, dir string, res *fw.Result, uni
 	// seeks
 	for _, t := range c11Targets(ents) {
 		res.Evaluations++
+		fw.Alive()
 		it := r.NewIterator()
 		ok := it.Seek(t)
 		var want *sstEntry
@@ -275,7 +303,7 @@ func c11CheckClean(name string, ents []sstEntry, dir string, res *fw.Result, uni
 		}
 		n := 0
 		bad := false
-		for it.Valid() && n < len(ents)+3 {
+		for it.Valid() && n < len(ents)+3 && !(light && n >= 2) {
 			if idx+n >= len(ents) || !bytes.Equal(it.Key(), ents[idx+n].Key) {
 				viol("seek-then-next", fmt.Sprintf("after Seek(%q), step %d yields %q, expected %v", clip(t), n, clip(it.Key()), keyAt(ents, idx+n)))
 				bad = true
@@ -284,7 +312,7 @@ func c11CheckClean(name string, ents []sstEntry, dir string, res *fw.Result, uni
 			n++
 			it.Next()
 		}
-		if !bad && idx+n != len(ents) {
+		if !bad && idx+n != len(ents) && !light {
 			viol("seek-then-next", fmt.Sprintf("after Seek(%q) iteration ended after %d entries, expected %d", clip(t), n, len(ents)-idx))
 			bad = true
 		}
@@ -515,7 +543,7 @@ func init() {
 	fw.Register(&fw.Check{
 		ID:    "C11",
 		Level: "exploration",
-		Rule: "entry sets: n in {1,2,15,16,17,18,31,32,33,40} x {plain, alternating / restart-edge tombstones, empty values}, all tombstone masks for n<=4 (6 thorough), prefix/binary keys, long shared prefixes, keys of 65535 and 65534 bytes (the format limit) stored prefix-compressed, 2/3(/5)-block tables; for each: forward iteration (from SeekToFirst, and by Next alone on a fresh iterator), Seek to every key / successor / predecessor / both ends followed by iteration to the end, SeekToLast, Get of every key and every non-key target. " +
+		Rule: "entry sets: n in {1,2,15,16,17,18,31,32,33,40} x {plain, alternating / restart-edge tombstones, empty values}, all tombstone masks for n<=4 (6 thorough), prefix/binary keys, long shared prefixes, keys of 65535 and 65534 bytes (the format limit) stored prefix-compressed, 2/3(/5)-block tables, dense tables of 1024/1025/1040/1041/3500 six-byte entries (one block far beyond 1024 entries / 65 restart points; thorough adds 1023..7000 and a 1100-block table); for each: forward iteration (from SeekToFirst, and by Next alone on a fresh iterator), Seek to every key / successor / predecessor / both ends followed by iteration to the end, SeekToLast, Get of every key and every non-key target. " +
 			"Damage: every byte (files <= 8 KiB; head, 251-stride (every byte in the thorough tier) and last 6 KiB for larger) x {^0x01, ^0x80, 0xFF}: open+iterate+get must fail or yield only written entries. Non-trivial = tables with >1 entry / damaged opens that were evaluated to the end",
 		Assumptions: []string{"key/value sizes up to 20 KiB values and 302-byte keys; single-byte damage only"},
 		Units: func(tier string) []string {
